@@ -5,10 +5,11 @@ Open Scope N_scope.
 
 (** For every source, destination, file system and behaviour of the operating system's
     create/write (the oracle): exit 0 means the destination holds the complete object file; a
-    non-zero exit leaves every path as it was — except for the one outcome named by
-    [preserving]: a REGULAR file that `File::create` truncated and the disk then refused to fill
-    (outside the property's quantifier, which injects write failure with a device that accepts
-    no data and with an uncreatable destination; recorded as a limitation in DESIGN.md).
+    non-zero exit leaves every path as it was.  Since the repair F39 an absent or regular destination
+    is written to a temporary file next to it and renamed into place, so a write that fails half-way
+    (full disk, quota, size limit: outcome [WTempFail]) changes nothing either.  The one outcome
+    [preserving] still excludes needs two faults at once: the destination's directory refuses a new
+    file, so the existing file is written directly, AND that write fails half-way.
     No other path is ever touched. *)
 Theorem C08_atomic : forall feat src dest f o,
   let '(e, f') := compile_cmd feat src dest f o in
